@@ -122,6 +122,7 @@ class AtomicFloatingBase : public AtomicBase<Impl, T> {
 
  public:
   using Base::Base;
+  using Base::operator=;
 };
 
 template <typename Impl, typename T>
@@ -129,6 +130,7 @@ class AtomicFloatingBase<Impl, T, true> : public AtomicBase<Impl, T> {
   using Base = AtomicBase<Impl, T>;
 
  public:
+  using Base::operator=;
   using Base::Base;
 
   T fetch_add(T arg, std::memory_order order = std::memory_order_seq_cst) noexcept {
@@ -174,6 +176,7 @@ class AtomicIntegralBase : public AtomicFloatingBase<Impl, T> {
 
  public:
   using Base::Base;
+  using Base::operator=;
 };
 
 template <typename Impl, typename T>
@@ -182,6 +185,7 @@ class AtomicIntegralBase<Impl, T, true> : public AtomicFloatingBase<Impl, T, tru
 
  public:
   using Base::Base;
+  using Base::operator=;
 
   T fetch_and(T arg, std::memory_order order = std::memory_order_seq_cst) noexcept {
     YACLIB_INJECT_FAULT(auto r = Impl::fetch_and(arg, order));
@@ -280,6 +284,7 @@ class Atomic : public AtomicIntegralBase<Impl, T> {
 
  public:
   using Base::Base;
+  using Base::operator=;
 };
 
 template <typename Impl, typename U>
@@ -288,6 +293,7 @@ class Atomic<Impl, U*> : public AtomicBase<Impl, U*> {
 
  public:
   using Base::Base;
+  using Base::operator=;
 
   U* fetch_add(std::ptrdiff_t arg, std::memory_order order = std::memory_order_seq_cst) noexcept {
     YACLIB_INJECT_FAULT(auto* r = Impl::fetch_add(arg, order));
